@@ -188,7 +188,7 @@ Section Signer.
       let qs := values_add p_SigAlg (signature_method_identifier (rc_key_alg cfg) h) qs in
       let msg := signature_input_string (values_get p_SAMLRequest qs) (values_get p_RelayState qs) (values_get p_SigAlg qs) in
       match sign h msg with
-      | None => Err (EOther "unable to sign query string of redirect URL")
+      | None => Err (EOther "unable to sign query string of redirect URL: %v")   (* fmt.Errorf: the format string *)
       | Some raw => Ok (values_add p_Signature (base64_encode raw) qs, Some (h, msg))
       end
     else Ok (qs, None).
@@ -214,7 +214,7 @@ Section Signer.
       let qs := values_add p_SigAlg alg qs in
       let msg := logout_signed_string (base64_encode deflated) relay_state alg in
       match sign h msg with
-      | None => Err (EOther "unable to sign query string of redirect URL")
+      | None => Err (EOther "unable to sign query string of redirect URL: %v")   (* fmt.Errorf: the format string *)
       | Some raw => Ok (values_add p_Signature (base64_encode raw) qs, Some (h, msg))
       end
     else Ok (qs, None).
